@@ -219,6 +219,21 @@ class Check:
                 if "Postcondition" in line and "is false" in line:
                     r.postcondition_false = True
 
+    def tlapm(self, module, timeout=900):
+        """Check the TLAPS proofs of spec/<module>.tla with tlapm; returns the number of obligations proved."""
+        import re
+        try:
+            p = subprocess.run(["tlapm", "--threads", "8", "--cleanfp", module + ".tla"], cwd=self.specdir,
+                               capture_output=True, text=True, timeout=timeout)
+        except subprocess.TimeoutExpired:
+            raise InfraError("tlapm %s timed out" % module)
+        out = p.stdout + p.stderr
+        m = re.search(r"All (\d+) obligations? proved", out)
+        if p.returncode != 0 or not m:
+            raise InfraError("tlapm did not prove %s:\n%s" % (module, out[-3000:]))
+        log("[tlapm] %s: %s obligations proved" % (module, m.group(1)))
+        return int(m.group(1))
+
     def tlc_ok(self, r, what):
         """TLC must have finished cleanly (exit 0); anything else is infrastructure."""
         if r.exit != 0:
